@@ -29,6 +29,33 @@ def _contains(root, node):
     return any(n is node for n in ast.walk(root))
 
 
+class GStr(str):
+    """a guard as text (`if <test>` / `else-of <test>` / `unless <test>`) that compares structurally: equal to a plain
+    string when the prefix agrees and the test matches the string's test with local names as metavariables"""
+
+    def __new__(cls, prefix, test):
+        self = super().__new__(cls, f"{prefix} {src(test)}")
+        self.prefix, self.test = prefix, test
+        return self
+
+    def __eq__(self, other):
+        if isinstance(other, str) and not isinstance(other, GStr):
+            if str.__eq__(self, other):
+                return True
+            if not other.startswith(self.prefix + " "):
+                return False
+            try:
+                return bool(P.amatch(self.test, other[len(self.prefix) + 1:]))
+            except SyntaxError:
+                return False
+        return str.__eq__(self, other)
+
+    def __ne__(self, other):
+        return not self.__eq__(other)
+
+    __hash__ = str.__hash__
+
+
 def guards(fn_node, node, pm, stop=None):
     """conditions under which `node` executes inside fn: enclosing if-tests (with arm) and preceding
     early exits (`if c: continue/return/raise` earlier in an enclosing block)."""
@@ -44,10 +71,10 @@ def guards(fn_node, node, pm, stop=None):
         if isinstance(block, list) and st in block:
             for prev in block[: block.index(st)]:
                 if isinstance(prev, ast.If) and prev.body and isinstance(prev.body[-1], (ast.Continue, ast.Return, ast.Break, ast.Raise)):
-                    out.append("unless " + src(prev.test))
+                    out.append(GStr("unless", prev.test))
         if isinstance(par, ast.If):
             arm = "if" if fld == "body" else "else-of"
-            out.append(f"{arm} {src(par.test)}")
+            out.append(GStr(arm, par.test))
     return out
 
 
@@ -162,14 +189,14 @@ def rule_usage(run):
     run.ob(ok, "EntityTemplate.__init__", file=rp.rel, line=bl.lineno, detail="instance-output-to-input-port", expected="raise when an instance output is connected to an input port of the parent", found="ok" if ok else "missing: an input port can be driven by an instance")
     if inp_raises:
         g = guards(init.node, inp_raises[0], pm)
-        allowed_i = {"if isinstance(sig_root, Port) and sig_root.is_input()", "unless not decl.is_output()", "if isinstance(block, Entity)"}
+        allowed_i = ["if isinstance(sig_root, Port) and sig_root.is_input()", "unless not decl.is_output()", "if isinstance(block, Entity)"]
         extra = [x for x in g if x not in allowed_i]
         run.ob(not extra, "EntityTemplate.__init__", file=rp.rel, line=inp_raises[0].lineno, detail="instance-output-to-input-port.guards", expected="no further condition", found=str(extra) if extra else "ok")
     ok = len(raises) == 1
     run.ob(ok, "EntityTemplate.__init__", file=rp.rel, line=bl.lineno, detail="instance-output-collision", expected="raise when an instance output drives an already written root", found="ok" if ok else f"{len(raises)} raise statements")
     if raises:
         g = guards(init.node, raises[0], pm)
-        allowed = {"if sig_root in written_in", "unless not decl.is_output()", "if isinstance(block, Entity)", "unless isinstance(sig_root, Port) and sig_root.is_input()"}
+        allowed = ["if sig_root in written_in", "unless not decl.is_output()", "if isinstance(block, Entity)", "unless isinstance(sig_root, Port) and sig_root.is_input()"]
         extra = [x for x in g if x not in allowed]
         missing = [x for x in allowed if x not in g and not x.startswith("unless isinstance(sig_root")]
         run.ob(not extra and not missing, "EntityTemplate.__init__", file=rp.rel, line=raises[0].lineno, detail="instance-output-collision.guards",
@@ -196,8 +223,10 @@ def rule_local(run):
     gen = run.idx.mod(GEN)
     pm = gen.parents
     chk = gen.func("ConvertInstance.apply.<locals>.check_variables_and_temporaries")
-    first = chk.node.body[0]
-    ok = isinstance(first, ast.Assert) and P.T(first.test) == "not isinstance(obj, Variable)"
+    from ..astutil import unconditional_stmt
+    first = unconditional_stmt(chk.node, lambda st: isinstance(st, ast.Assert) and src(st.test) == "not isinstance(obj, Variable)")
+    ok = first is not None
+    first = first or chk.node.body[0]
     run.ob(ok, "ConvertInstance.apply[Concurrent]", file=gen.rel, line=chk.node.lineno, detail="no-variables", expected="unconditional `assert not isinstance(obj, Variable)`", found=src(first)[:70])
     ap = gen.func("ConvertInstance.apply")
     applied = any(isinstance(c.func, ast.Attribute) and c.func.attr in ("visit_objects", "visit_referenced_objects") and c.args and dotted(c.args[0]) == chk.node.name for c in calls_in(ap.node))
@@ -219,7 +248,7 @@ def rule_local(run):
     if not asserts:
         raise AnalysisError("scope-sharing assertion of VhdlScope.declare not found")
     g = guards(d.node, asserts[0], vh.parents)
-    allowed = {"if not _is_first", "if obj in self._declarations"}
+    allowed = ["if not _is_first", "if obj in self._declarations"]
     extra = [x for x in g if x not in allowed]
     run.ob(not extra and "if not _is_first" in g, "VhdlScope.declare", file=vh.rel, line=asserts[0].lineno, detail="no-sharing",
            expected="assert not isinstance(obj, (Variable, Temporary)) whenever an existing declaration is requested from another scope", found=str(g))
